@@ -30,6 +30,12 @@ def _worker_verify(job):
     """verify one function (or lemma) in a fresh engine; returns plain data"""
     kind, name, seed, timeout_ms = job
     t0 = time.time()
+    import signal
+
+    def _alarm(signum, frame):
+        raise TimeoutError("worker watchdog: %s did not finish" % name)
+    signal.signal(signal.SIGALRM, _alarm)
+    signal.alarm(int(os.environ.get('VERIF_WORKER_LIMIT_S', '1500')))
     out = {'kind': kind, 'name': name, 'obligations': [], 'outside': None, 'crash': None, 'info': None,
            'assumptions': [], 'trusted_used': [], 'inlined': [], 'vacuity': []}
     try:
